@@ -49,6 +49,7 @@ from ..core import Clause, HarnessError, Violation, canon
 from ..ref import urwidscreen as RU
 
 META = {
+    "thorough_scale": 4,
     "level": "exploration",
     "rule": (
         "Hypothesis-generated histories (1-25 steps of 1-3 operations + redraw) over layouts built from "
